@@ -423,6 +423,20 @@ def run(ctx):
                      "`%s` names a relation where sqlparser's visit_relations does not look, and table_access has no arm for %s::%s: the statement refers to a listed table and is forwarded" % (what, ty, var))
 
     # ---------------- R5 order and disabled behaviour
+    # ... and the other side of the comparison is the list as the operator wrote it: nothing rewrites TableAccess.tables after the file was read. A list folded
+    # to lower case at validation no longer holds `"Accounts"` - the spelling PostgreSQL resolves to the table created as "Accounts" - and the plugin, which takes
+    # quoted identifiers as written, lets every statement on it through
+    wr_tables = []
+    for n_, b_ in F.bodies.items():
+        if "::test" in n_ or n_.startswith("bin:"):
+            continue
+        for blk, pl, how in all_places(b_):
+            if how in ("write", "refmut") and "tables" in proj_fields(pl):
+                ty = b_.locals[pl["l"]]["ty"]
+                if "TableAccess" in ty or "Plugins" in ty or "config::" in ty:
+                    wr_tables.append("%s (%s)" % (n_.replace("pgcat::", ""), how))
+    r4.check(not wr_tables, "listed-names-as-written", "no function rewrites the configured table list (TableAccess.tables)",
+             "the configured table list is modified in %s: the names the plugin compares with are no longer the ones the operator listed - a table listed as \"Accounts\" (created with quotes) stops matching the only spelling that reaches it" % sorted(set(wr_tables)))
     r5 = ctx.rule("C19-R5", "with plugins disabled nothing is blocked; intercept is consulted before table_access; an Intercept payload ends with ReadyForQuery", floor=4)
     ex = ctx.body(EXECC, r5)
     if ex:
